@@ -137,7 +137,7 @@ def drv_chain_factory(tier):
     return drv
 
 
-DATA_TEMPLATES = ["slice", "flatten", "concat_zero", "expand_shape_of", "reshape_const", "scatter_dynamic", "expand_binary",
+DATA_TEMPLATES = ["expand_const", "slice", "flatten", "concat_zero", "expand_shape_of", "reshape_const", "scatter_dynamic", "expand_binary",
                   "squeeze_unsqueeze", "identity_shape", "matmul_reshape", "split_seq", "reshape_shape_mix", "gather_shape_dim"]
 
 
@@ -146,7 +146,14 @@ def drv_data(ch):
     xk = ch.all("x", list(range(len(XKINDS))))
     p = {}
     api = "optimize"
-    if t == "slice":
+    if t == "expand_const":
+        # Expand with a CONSTANT target of lower / equal / higher rank than the input (broadcasting aligns from the
+        # right; a seeded defect aligned from the left)
+        p["xs"] = ch.all("xs", [[3, "N"], ["N", 3], [1, "N"], ["N", 1], ["N", "M"], [3, 1], [None, 3]])
+        import itertools as _it
+        p["target"] = ch.all("target", [list(t_) for r in (1, 2, 3) for t_ in _it.product([1, 3, 2], repeat=r)])
+        p["pre"] = ch.all("pre", [None, "Relu"])
+    elif t == "slice":
         p["start"] = ch.all("start", [0, 1])
         p["end"] = ch.all("end", [mz.INT64_MAX, 3, 7, 2, 1, 100])
         p["axis"] = ch.all("axis", [0, 1, -1])
@@ -199,7 +206,9 @@ def drv_data(ch):
         p["then"] = ch.all("then", ["out", "range", "cos", "eq"])
         p["axisattr"] = ch.all("axisattr", [0, None])
     vi = ch.choose("value_info", [False, True])
-    return dict(fam="data", tmpl=t, x=xk, p=p, vi=vi, api=api)
+    # unknown output dims written anonymously (no dim_param), as some exporters do, instead of onnx's unk__N names
+    anon = ch.choose("anon_out_dims", [False, True])
+    return dict(fam="data", tmpl=t, x=xk, p=p, vi=vi, api=api, anon=anon)
 
 
 # ------------------------------------------------------------------------------------------------
@@ -267,7 +276,11 @@ def spec_of(item):
             outs = [nb.add("Add", [X, c0])]
     else:
         t, p = item["tmpl"], item["p"]
-        if t == "slice":
+        if t == "expand_const":
+            ins[0] = ["x", "f32", p["xs"]]
+            src = nb.add(p["pre"], [X]) if p["pre"] else X
+            outs = [nb.add("Expand", [src, _c(i(p["target"]))])]
+        elif t == "slice":
             sl = [X, _c(i([p["start"]])), _c(i([p["end"]])), _c(i([p["axis"]]))]
             if p["step"] is not None:
                 sl.append(_c(i([p["step"]])))
@@ -397,6 +410,8 @@ def spec_of(item):
     spec = {"ins": ins, "nodes": nb.nodes, "outs": [dict(o, k=0) for o in outs], "wrap": "none", "opset": 18}
     if item.get("vi"):
         spec["keep_value_info"] = True
+    if item.get("anon"):
+        spec["anon_out_dims"] = True
     return spec
 
 
